@@ -495,15 +495,17 @@ static void print_tokens(Token *tok) {
 
     // A `#` that is still here is not a directive (it came out of a
     // macro); at the start of a line it would be read as one.
+    // A `\` token right before a new-line would be taken for a line
+    // splice when the output is read again; a space keeps it a token.
     if (line > 1 && tok->at_bol && !equal(tok, "#"))
-      fprintf(out, "\n");
+      fprintf(out, equal(prev, "\\") ? " \n" : "\n");
     else if (tok->has_space || (prev && !adjacent))
       fprintf(out, " ");
     fprintf(out, "%.*s", tok->len, tok->loc);
     line++;
     prev = tok;
   }
-  fprintf(out, "\n");
+  fprintf(out, prev && equal(prev, "\\") ? " \n" : "\n");
   close_file(out, opt_o);
 }
 
